@@ -1955,6 +1955,20 @@ theorem wfCheck_sound {t : Tree} (h : wfCheck t = true) : WF t := by
     exact this
   exact ⟨fun i w hw hf => (hi i w hw hf).1, fun i c w cw hw hf hc hcw => (hi i w hw hf).2 c hc cw hcw⟩
 
+def noStealCheck (t : Tree) : Bool :=
+  (List.range t.wins.size).all fun i =>
+    match t.wins[i]? with
+    | some w => !w.stealInput
+    | none => true
+
+theorem noStealCheck_sound {t : Tree} (h : noStealCheck t = true) :
+    ∀ (i : WinTree.Id) (w : Win), t.wins[i]? = some w → w.stealInput = false := by
+  intro i w hw
+  unfold noStealCheck at h
+  rw [List.all_eq_true] at h
+  have := h i (List.mem_range.2 (Array.getElem?_eq_some_iff.1 hw).1)
+  simpa [hw] using this
+
 def staticCheck (binds : Array Binding) : Bool :=
   binds.toList.all fun b => b.entries.all fun e => e.actions.isEmpty
 
@@ -1969,6 +1983,181 @@ theorem staticCheck_sound {binds : Array Binding} (h : staticCheck binds = true)
   rw [List.all_eq_true] at this
   have := this e he
   simpa using this
+
+/-! ### the first window offered a mouse event is the painter's-model owner of the cell -/
+
+/-- The window at the head of a visiting list. -/
+def headWin (ws : List (WinTree.Id × Ev)) : Option WinTree.Id := ws.head?.map (·.1)
+
+theorem headWin_append (a b : List (WinTree.Id × Ev)) : headWin (a ++ b) = (headWin a).or (headWin b) := by
+  unfold headWin
+  rw [List.head?_append]
+  cases a.head? <;> rfl
+
+theorem visitList_all_some {α : Type} {g : WinTree.Id → Option (List α)} : ∀ {cs : List WinTree.Id} {ws : List α},
+    visitList g cs = some ws → ∀ c ∈ cs, ∃ l, g c = some l := by
+  intro cs
+  induction cs with
+  | nil => intro ws _ c hc; cases hc
+  | cons x rest ih =>
+    intro ws h c hc
+    obtain ⟨a, b, ha, hb, _⟩ := visitList_cons_some h
+    rcases List.mem_cons.1 hc with rfl | hr
+    · exact ⟨a, ha⟩
+    · exact ih hb c hr
+
+theorem visitList_headWin {g : WinTree.Id → Option (List (WinTree.Id × Ev))} : ∀ {cs : List WinTree.Id}
+    {ws : List (WinTree.Id × Ev)}, visitList g cs = some ws →
+    headWin ws = cs.findSome? (fun c => match g c with | some l => headWin l | none => none) := by
+  intro cs
+  induction cs with
+  | nil => intro ws h; simp only [visitList, Option.some.injEq] at h; subst h; rfl
+  | cons x rest ih =>
+    intro ws h
+    obtain ⟨a, b, ha, hb, rfl⟩ := visitList_cons_some h
+    rw [headWin_append, List.findSome?_cons, ha]
+    simp only
+    cases hh : headWin a with
+    | some o => rfl
+    | none => simp only [Option.or]; exact ih hb
+
+theorem findSome?_congr {α β : Type} {F G : α → Option β} : ∀ {l : List α}, (∀ x ∈ l, F x = G x) →
+    l.findSome? F = l.findSome? G := by
+  intro l
+  induction l with
+  | nil => intro _; rfl
+  | cons x rest ih =>
+    intro h
+    rw [List.findSome?_cons, List.findSome?_cons, h x (List.mem_cons_self ..)]
+    cases G x with
+    | some b => rfl
+    | none => exact ih (fun y hy => h y (List.mem_cons_of_mem _ hy))
+
+theorem inChild_eq_memb (cw : Win) (l c : Int) : inChild cw l c = cw.rect.memb l c := by
+  unfold inChild outsideChild Rect.memb Rect.bottom Rect.right
+  by_cases h1 : cw.rect.top ≤ l <;> by_cases h2 : l < cw.rect.top + cw.rect.lines <;>
+    by_cases h3 : cw.rect.left ≤ c <;> by_cases h4 : c < cw.rect.left + cw.rect.cols <;>
+    simp [h1, h2, h3, h4] <;> omega
+
+theorem visibleChain_mono {t : Tree} : ∀ (f : Nat) (i : WinTree.Id), visibleChain t f i = true →
+    visibleChain t (f + 1) i = true := by
+  intro f
+  induction f with
+  | zero => intro i h; simp [visibleChain] at h
+  | succ f ih =>
+    intro i h
+    unfold visibleChain at h ⊢
+    cases hw : t.wins[i]? with
+    | none => simp [hw] at h
+    | some w =>
+      simp only [hw] at h ⊢
+      split at h
+      · cases h
+      · rename_i hc
+        simp only [hc, if_false]
+        cases hp : w.parent with
+        | none => rfl
+        | some p => simp only [hp] at h ⊢; exact ih p h
+
+theorem visibleChain_mono' {t : Tree} {i : WinTree.Id} : ∀ (k f : Nat), visibleChain t f i = true →
+    visibleChain t (f + k) i = true := by
+  intro k
+  induction k with
+  | zero => intro f h; exact h
+  | succ k ih => intro f h; exact visibleChain_mono _ _ (ih f h)
+
+/-- The window `mouseVisits` starts with is the one `ownerIn` finds below `win`. -/
+theorem mouseVisits_owner {t : Tree} (hwf : WF t) (hns : ∀ (i : WinTree.Id) (w : Win), t.wins[i]? = some w → w.stealInput = false) :
+    ∀ (f : Nat) (win : WinTree.Id) (ev : Ev) (g : Nat) (w : Win) (ws : List (WinTree.Id × Ev)),
+      t.wins[win]? = some w → visibleChain t g win = true → g + f ≤ treeFuel t →
+      mouseVisits t f win ev = some ws →
+      headWin ws = some (match w.children.findSome? (fun ch => ownerIn t (f - 1) ch ev.line ev.col) with
+        | some o => o
+        | none => win) := by
+  intro f
+  induction f with
+  | zero => intro win ev g w ws _ _ _ h; simp [mouseVisits] at h
+  | succ f ih =>
+    intro win ev g w ws hw hvg hfuel hv
+    have hvF : visibleChain t (treeFuel t) win = true := by
+      have := visibleChain_mono' (treeFuel t - g) g hvg
+      have e : g + (treeFuel t - g) = treeFuel t := by omega
+      rw [e] at this; exact this
+    obtain ⟨w', hw', hwfree, _⟩ := visibleChain_alive hvg
+    rw [hw] at hw'; cases hw'
+    unfold mouseVisits at hv
+    simp only [hw, hvF, Bool.not_true, Bool.false_eq_true, if_false] at hv
+    cases hb : visitList (childVisits t (mouseVisits t f) ev) w.children with
+    | none => simp [hb] at hv
+    | some below =>
+      simp [hb] at hv
+      subst hv
+      rw [headWin_append, visitList_headWin hb]
+      have hall := visitList_all_some hb
+      have hcongr : w.children.findSome? (fun c => match childVisits t (mouseVisits t f) ev c with
+            | some l => headWin l | none => none) =
+          w.children.findSome? (fun ch => ownerIn t f ch ev.line ev.col) := by
+        apply findSome?_congr
+        intro ch hch
+        obtain ⟨l, hl⟩ := hall ch hch
+        rw [hl]
+        simp only
+        unfold childVisits at hl
+        cases hcw : t.wins[ch]? with
+        | none =>
+          simp only [hcw, Option.some.injEq] at hl
+          subst hl
+          cases f with
+          | zero => rfl
+          | succ f' => simp [ownerIn, hcw, headWin]
+        | some cw =>
+          simp only [hcw, hns ch cw hcw, Bool.false_or, inChild_eq_memb] at hl
+          have hpar : cw.parent = some win := hwf.parent win ch w cw hw hwfree hch hcw
+          cases f with
+          | zero =>
+            by_cases hm : cw.rect.memb ev.line ev.col = true
+            · simp [hm, mouseVisits] at hl
+            · simp only [hm, Bool.false_eq_true, if_false, Option.some.injEq] at hl
+              subst hl; rfl
+          | succ f' =>
+            unfold ownerIn
+            simp only [hcw]
+            by_cases hm : cw.rect.memb ev.line ev.col = true
+            · simp only [hm, if_true] at hl
+              by_cases hok : (!cw.isVisible || cw.freed) = true
+              · -- hidden or freed: nothing below it is visited
+                have hvc : visibleChain t (treeFuel t) ch = false := by
+                  unfold WinInput.treeFuel
+                  unfold visibleChain
+                  simp only [hcw]
+                  have : (cw.freed || !cw.isVisible) = true := by
+                    cases h1 : cw.isVisible <;> cases h2 : cw.freed <;> simp_all
+                  simp [this]
+                unfold mouseVisits at hl
+                simp only [hcw, hvc, Bool.not_false, if_true, Option.some.injEq] at hl
+                subst hl
+                simp [hok, headWin]
+              · simp only [hok, Bool.false_eq_true, if_false, hm, Bool.not_true]
+                have hvis : cw.isVisible = true ∧ cw.freed = false := by
+                  cases h1 : cw.isVisible <;> cases h2 : cw.freed <;> simp_all
+                have hvch : visibleChain t (g + 1) ch = true := by
+                  unfold visibleChain
+                  simp only [hcw, hvis.1, hvis.2, Bool.not_true, Bool.or_self, Bool.false_eq_true, if_false, hpar]
+                  exact hvg
+                have := ih ch (ev.toChild cw) (g + 1) cw l hcw hvch (by omega) hl
+                rw [this]
+                simp only [Ev.toChild, Nat.add_sub_cancel]
+                cases cw.children.findSome? (fun ch' => ownerIn t f' ch' (ev.line - cw.rect.top) (ev.col - cw.rect.left)) <;> rfl
+            · simp only [hm, Bool.false_eq_true, if_false, Option.some.injEq] at hl
+              subst hl
+              by_cases hok : (!cw.isVisible || cw.freed) = true
+              · simp [hok, headWin]
+              · simp [hok, hm, headWin]
+      rw [hcongr]
+      simp only [Nat.add_sub_cancel]
+      cases w.children.findSome? (fun ch => ownerIn t f ch ev.line ev.col) with
+      | some o => rfl
+      | none => rfl
 
 /-! ### helpers of Props/C14.lean -/
 
